@@ -35,14 +35,21 @@ ORACLE = {11: (3, None), 12: (2, 'C10-DEP-STALE'), 13: (2, 'C10-DEP-INEXACT'), 1
 
 
 # ------------------------------------------------------------------ generator
-def rexpr(rng, syms, depth, nopw=False):
+def rexpr(rng, syms, depth, family='pw', incond=False):
+    """Two disjoint families (see CONVENTIONS.md, "sympy folds numeric relationals with real arithmetic"):
+    'tr' = transcendental functions allowed, no Piecewise; 'pw' = Piecewise with conditions, rational
+    arithmetic only.  So a relational that sympy may fold to True/False is always exact rational."""
     if depth == 0 or rng.random() < 0.3:
         if rng.random() < 0.2:
             return str(rng.choice([1, 2, 3]))
         return rng.choice(syms)
-    k = rng.choice(['add', 'add', 'mul', 'mul', 'div', 'pow', 'exp', 'log', 'pw', 'neg', 'sqrt'][:(8 if nopw else 11)]
-                   + (['neg', 'sqrt'] if nopw else []))
-    a, b = rexpr(rng, syms, depth - 1, nopw), rexpr(rng, syms, depth - 1, nopw)
+    kinds = ['add', 'add', 'mul', 'mul', 'div', 'pow', 'neg']
+    if family == 'tr':
+        kinds += ['exp', 'log', 'sqrt']
+    elif not incond:
+        kinds += ['pw', 'pw']
+    k = rng.choice(kinds)
+    a, b = rexpr(rng, syms, depth - 1, family, incond), rexpr(rng, syms, depth - 1, family, incond)
     if k == 'add':
         return f'({a} + {b})'
     if k == 'mul':
@@ -59,22 +66,45 @@ def rexpr(rng, syms, depth, nopw=False):
         return f'-({a})'
     if k == 'sqrt':
         return f'sqrt({a})'
-    c, d = rexpr(rng, syms, depth - 1, True), rexpr(rng, syms, depth - 1, True)   # no Piecewise inside conditions
+    c, d = rexpr(rng, syms, depth - 1, family, True), rexpr(rng, syms, depth - 1, family, True)
     op = rng.choice(['<', '<=', '>', '>=', 'Eq', 'Ne'])
     cond = f'{op}({c}, {d})' if op in ('Eq', 'Ne') else f'({c}) {op} ({d})'
     return f'Piecewise(({a}, {cond}), ({b}, True))'
 
 
+def gen_chain_spec(rng):
+    """Structured family for remove_symbol_definitions: a definition chain of depth 1-3 whose head was
+    dropped from the edited statement, with other users of chain members before and/or after it."""
+    fam = 'pw'
+    depth = rng.choice([1, 2, 2, 3])
+    chain = rng.sample(VARS[:5], depth)            # chain[0] defined from leaves, chain[k] from chain[k-1]
+    stmts = [[chain[0], rexpr(rng, LEAVES, 1, fam)]]
+    for k in range(1, depth):
+        stmts.append([chain[k], f'({chain[k - 1]})*({rng.choice(LEAVES)}) + {rng.choice([1, 2])}'])
+    head = chain[-1]
+    users_before = [[f'{x}', f'({rng.choice(chain)}) + {rng.choice(LEAVES)}'] for x in rng.sample(['X', 'Y'], rng.choice([0, 0, 1]))]
+    edited = ['Y' if not users_before or users_before[0][0] != 'Y' else 'X', rexpr(rng, LEAVES, 1, fam)]
+    users_after = [['D' if 'D' not in chain else 'X', f'({rng.choice(chain)}) + ({edited[0]})']] if rng.random() < 0.6 else []
+    extra_redef = [[chain[0], rexpr(rng, LEAVES, 1, fam)]] if rng.random() < 0.2 else []
+    body = stmts + users_before + extra_redef + [edited] + users_after
+    ri = len(stmts) + len(users_before) + len(extra_redef)
+    q = {'full': [edited[0]], 'reassign': [], 'rsd': [[[head], ri], [list(chain), ri]], 'subs': [], 'family': 'chain'}
+    return {'stmts': body, 'queries': q}
+
+
 def gen_spec(rng):
+    if rng.random() < 0.25:
+        return gen_chain_spec(rng)
     n = rng.choice([1, 2, 3, 3, 4, 5, 6, 7, 8, 10, 12])
     style = rng.choice(['ssa', 'free', 'free', 'redefine'])
+    fam = rng.choice(['pw', 'tr'])
     stmts = []
     ode_at = rng.randrange(n) if rng.random() < 0.3 and n >= 3 else None
     defined = []
     pool = list(VARS)
     for i in range(n):
         if i == ode_at:
-            stmts.append(['ODE', rexpr(rng, (defined or LEAVES) + LEAVES, 1)])
+            stmts.append(['ODE', rexpr(rng, (defined or LEAVES) + LEAVES, 1, fam)])
             defined.append('A_CENTRAL(t)')
             continue
         if style == 'ssa':
@@ -89,25 +119,51 @@ def gen_spec(rng):
         else:
             lhs = rng.choice(pool)
             syms = LEAVES + pool + [d for d in defined if '(' in d]
-        stmts.append([lhs, rexpr(rng, syms, rng.choice([1, 2, 2, 3]))])
+        stmts.append([lhs, rexpr(rng, syms, rng.choice([1, 2, 2, 3]), fam)])
         if lhs not in defined:
             defined.append(lhs)
     allsyms = LEAVES + VARS + (['A_CENTRAL(t)'] if ode_at is not None and ode_at < len(stmts) else [])
     q = {
-        'full': [rexpr(rng, allsyms, 1) for _ in range(2)] + [s for s in VARS[:3]],
-        'reassign': [[rng.choice(VARS), rexpr(rng, allsyms, 2)] for _ in range(2)],
-        'rsd': [[rng.sample(VARS, rng.choice([1, 1, 2])), rng.randrange(len(stmts))] for _ in range(3)],
-        'subs': gen_subs(rng),
+        'full': [rexpr(rng, allsyms, 1, fam) for _ in range(2)] + [s for s in VARS[:3]],
+        'reassign': [[rng.choice(VARS), rexpr(rng, allsyms, 2, fam)] for _ in range(2)],
+        'rsd': [gen_rsd_query(rng, stmts) for _ in range(3)],
+        'subs': gen_subs(rng, fam),
+        'family': fam,
     }
     return {'stmts': stmts, 'queries': q}
 
 
-def gen_subs(rng):
+def gen_rsd_query(rng, stmts):
+    ri = rng.randrange(len(stmts))
+    before = sorted({l for l, _ in stmts[:ri] if l != 'ODE'})
+    if before and rng.random() < 0.8:
+        return [rng.sample(before, min(len(before), rng.choice([1, 1, 2]))), ri]
+    return [rng.sample(VARS, rng.choice([1, 1, 2])), ri]
+
+
+def gen_subs(rng, fam):
     keys = rng.sample(LEAVES, rng.choice([1, 2]))
     others = [x for x in LEAVES if x not in keys]
-    leafmap = [[k, rexpr(rng, others + VARS[-2:], 1)] for k in keys]     # non-recursive by construction
+    leafmap = [[k, rexpr(rng, others + VARS[-2:], 1, fam)] for k in keys]     # non-recursive by construction
     rename = [[rng.choice(VARS), 'Z9']]                                   # renaming an assigned symbol
     return [leafmap, rename]
+
+
+def enum_specs(maxlen=3):
+    """Exhaustive small scope: every program of <= maxlen statements over lhs {A,B,X} and a 6-expression
+    alphabet (use-before-def, self reference, redefinition, piecewise all occur)."""
+    import itertools
+    lhs = ['A', 'B', 'X']
+    rhs = ['T', 'A', 'X + B', 'A*T', 'X', 'Piecewise((A, T > 1), (B, True))']
+    out = []
+    for n in range(1, maxlen + 1):
+        for prog in itertools.product(itertools.product(lhs, rhs), repeat=n):
+            stmts = [list(p) for p in prog]
+            out.append({'stmts': stmts, 'queries': {
+                'full': ['A + X'], 'reassign': [['A', 'B + 1']],
+                'rsd': [[['A'], n - 1], [['X', 'B'], n - 1]],
+                'subs': [[['T', 'U + 1']], [['A', 'Z9']]]}})
+    return out
 
 
 def gen_points(rng, names_list):
@@ -254,6 +310,13 @@ def run_specs(ctx, specs, label):
             # sympy produced zoo/nan or a node outside the modelled fragment: skipped and counted
             skipped += 1
             continue
+        except TypeError as e:
+            # sympy refuses to order complex constants (log of a negative literal inside a condition): engine
+            if 'Invalid comparison' not in str(e) and 'Cannot convert input to Expr' not in str(e):
+                raise
+            ctx.coverage['skipped_sympy_complex'] = ctx.coverage.get('skipped_sympy_complex', 0) + 1
+            skipped += 1
+            continue
         terms.append(term)
         kept.append(spec)
         infos.append(info)
@@ -314,6 +377,10 @@ def run(ctx):
     specs = [json.loads(p.read_text()) for p in reg]
     n = 400 if ctx.tier == 'quick' else 6000
     specs += [gen_spec(ctx.rng) for _ in range(n)]
+    if ctx.tier == 'thorough':
+        ex = enum_specs(3)
+        ctx.coverage['exhaustive_small_scope'] = {'programs': len(ex), 'scope': '<=3 statements, 3 lhs x 6 rhs'}
+        specs += ex
     kept, verdicts, infos, stats = run_specs(ctx, specs, 'gen')
     ctx.coverage['evaluations'] = sum(i['nqueries'] for i in infos)
     distinct = {json.dumps(s['stmts']) for s, i in zip(kept, infos) if i['n'] >= 2}
